@@ -61,6 +61,8 @@ def rules(ctx):
     must_depend(ctx, "R4.unserved-definition", "T1", S("compute_unserved_passengers_at_node"), "ret",
                 [call(N("passengers_of")), call(N("seated_passengers_of")), call(TRAINF + "::capacity"), call(TRAINF + "::seats")],
                 "unserved passengers at a node = demand minus formation capacity / seats")
+    from .C07 import formation_getters
+    formation_getters(ctx, "R4")
     from . import formulas
     before = len(ctx.obligations)
     formulas.tour_formulas(ctx, "R4")
